@@ -108,6 +108,7 @@ class Report:
         self.explanation = ''
         self.known = load_known()
         self.cross = {}
+        self.vacuity = {}
         self._seen_known = set()
 
     # ---- merging worker results ---------------------------------------
@@ -124,6 +125,10 @@ class Report:
         for d in res.get('distinct', []):
             self.distinct.add(d)
         self.inconclusive += res.get('inconclusive', [])
+        vc = res.get('vacuity')
+        if vc:
+            for k in ('labels_checked', 'reference_region_empty'):
+                self.vacuity[k] = self.vacuity.get(k, 0) + vc.get(k, 0)
         cr = res.get('cross')
         if cr:
             for k in ('sampled', 'agree', 'second_unknown', 'disagree'):
@@ -188,6 +193,7 @@ class Report:
             'programs': max(self.programs, 1),
             'disagreements_checked': len(self.violations) + len(self.known_hits),
             'stopped_early': bool(STOP[0]),
+            'vacuity_probe': dict(self.vacuity, note='first converted path of every deck: labels whose proven-equal region is empty on the reference side') if self.vacuity else 'n/a',
             'cross_solver': dict(self.cross, rate='1 in %s verdicts of the obligation solver' % os.environ.get('VT_CROSS_RATE', '0'),
                                  solvers='cvc5 binary, z3 binary (system build), %d s each' % 5) if self.cross else 'off',
         })
